@@ -16,6 +16,8 @@ mod report;
 mod rv;
 mod util;
 mod outcome;
+mod roundtrip;
+#[cfg(feature = "full")]
 mod corpus;
 mod model {
     pub mod fold;
